@@ -614,6 +614,52 @@ def rule_r3_r4(ctx: Ctx) -> None:
     ctx.floor("C02.R4", nscen, 9, "interpreted mutate scenarios")
 
 
+def rule_r6(ctx: Ctx) -> None:
+    """Dependent refinements: generate is interpreted with sibling values {a, b, c} and a refinement that names 'b,a' (and
+    'c'): the user's callable receives exactly the named siblings, positionally in the order the refinement names them, and
+    the value returned is the one generated for Annotated[base type, <what the callable returned>]."""
+    from ..modelinterp import Budget, Effect, Interp, Sym, UNKNOWN
+    prog = ctx.prog
+    dep = prog.classes.get("geneticengine.grammar.metahandlers.dependent.Dependent")
+    if dep is None:
+        raise AnalysisError("C02.R6: Dependent refinement class missing")
+    gen = prog.lookup_method(dep, "generate")
+    bad = und = None
+    n = 0
+    for name, want in (("b,a", ["vb", "va"]), ("c", ["vc"]), ("a,c", ["va", "vc"])):
+        it = Interp(prog, dep, lambda *_: None, None, max_depth=4, max_traces=16)
+        it.sym_result = lambda fv, a: Sym(fv.tag + "()")
+        p = gen.params
+        env = {"self": Sym("self"), "self.name": name, "self.callable": Sym("CALLABLE"), p[1]: Sym("random"), p[2]: Sym("grammar"),
+               p[3]: Sym("base"), p[4]: Sym("REC"), p[5]: {"a": Sym("va"), "b": Sym("vb"), "c": Sym("vc")}}
+        try:
+            runs = it.run(gen, env)
+        except Budget:
+            und = "too many interpretations"
+            continue
+        for trace, rv, notes in runs:
+            if any(e.kind == "raise" for e in trace):
+                bad = bad or f"Dependent('{name}', f).generate fails ({[e.name for e in trace if e.kind == 'raise'][0]}) although all named siblings are available"
+                continue
+            n += 1
+            calls = [e for e in trace if e.kind == "callsym" and e.name == "CALLABLE"]
+            if len(calls) != 1:
+                und = und or f"the refinement's callable is called {len(calls)} times in the model"
+                continue
+            got = [a.tag if isinstance(a, Sym) else "?" for a in calls[0].args]
+            if "?" in got:
+                und = und or "arguments of the callable not followed"
+            elif got != want:
+                bad = bad or (f"Dependent('{name}', f) calls f({', '.join(got)}) with siblings a=va, b=vb, c=vc; expected f({', '.join(want)}): "
+                              f"the refinement is built from the wrong sibling values")
+            recs = [e for e in trace if e.kind == "callsym" and e.name == "REC"]
+            if len(recs) != 1 or not (isinstance(rv, Sym) and rv.tag == "REC()"):
+                und = und or "the generated value is not followed"
+    ctx.ob("C02.R6", gen, gen.node, "Dependent.generate hands the callable the named siblings in the named order and returns the value generated for the resulting type",
+           False if bad else (None if und else True), bad or und or "", witness={"scenarios": n})
+    ctx.floor("C02.R6", n, 3, "interpreted Dependent.generate scenarios")
+
+
 def _block_containing(fn: FunctionInfo, node: ast.AST) -> list[ast.stmt]:
     p = parent(node)
     for fld in ("body", "orelse", "finalbody"):
@@ -628,9 +674,11 @@ def run(ctx: Ctx) -> None:
     ctx.rule("C02.R2", "creators route annotated fields through the refinement; the branch is reachable")
     ctx.rule("C02.R3", "sibling values: fresh per-node dict, filled after every field, forwarded to children and to generate")
     ctx.rule("C02.R4", "mutate regenerates fields whose refinement depends on a mutated sibling")
+    ctx.rule("C02.R6", "Dependent refinements receive the sibling values they name, in the order they name them")
     rule_r1(ctx)
     rule_r2(ctx)
     rule_r3_r4(ctx)
+    rule_r6(ctx)
     # ---- R5: refinements are read from the class declarations on every use (documented: they may be re-declared
     # before a grammar is extracted), so the readers must not memoise
     from .c08 import process_state_rule
